@@ -291,6 +291,7 @@ class CG(nn.Module):
         '''
         if A.ndim == b.ndim + 1:
             b = b.unsqueeze(-1)
+            x = x if x is None else x.unsqueeze(-1)
         else:
             assert A.ndim == b.ndim, \
                 'The number of dimensions of A and b must be the same or one more than b'
